@@ -239,4 +239,119 @@ Proof.
   split; [exact Hheld|]. split; [exact EI|exact I1].
 Qed.
 
+(* ------------------------------------------------------------------------------------------ *)
+(* Part 3: the chain                                                                            *)
+(* ------------------------------------------------------------------------------------------ *)
+
+Definition creq_dummy : creq := mkCReq (mkPreamble [] 0 0 0 [] [] [] []) [] [].
+
+Definition chain_post (capacity : N) (cs : list creq) (trailing : bytes) (res : list (req * list (option N * bytes)))
+  (pe : parser) (ue : bytes) : Prop :=
+  map fst res = map (expected norm) cs /\
+  Forall2 (fun c r => forall sg, In sg (role_input_streams (w_role (c_pre c))) ->
+             exists more, content_rcds (w_role (c_pre c)) (w_id (c_pre c)) (Some sg) (c_rest c)
+                          = delivered (Some sg) (snd r) ++ more) cs res /\
+  (cs <> [] -> exists done todo, c_rest (last cs creq_dummy) = done ++ todo /\
+                                 held pe ++ ue = enc_rcds todo ++ trailing) /\
+  st pe = Header /\ cap pe = capacity.
+
+Lemma chain_gen (HP : stream_phase_stmt maxc) B trailing :
+  B < SIZE_LIMIT - 8 -> bytes_ok trailing ->
+  forall cs gs junk L u,
+  Forall (creq_ok (aligned_bufsize B)) cs -> length gs = length cs ->
+  Forall (jrest (aligned_bufsize B)) junk ->
+  L ++ u = enc_rcds junk ++ flat_map creq_wire cs ++ trailing ->
+  len L <= aligned_bufsize B -> len (L ++ u) < SIZE_LIMIT ->
+  chain_legal norm maxc (mkParser (aligned_bufsize B) L Header) u gs ->
+  exists res pe ue,
+    chain_run norm maxc (mkParser (aligned_bufsize B) L Header) u gs = Some (res, pe, ue) /\
+    chain_post (aligned_bufsize B) cs trailing res pe ue.
+Proof.
+  intros HB Htr.
+  induction cs as [|c cs' IH]; intros gs junk L u Hcs Hlen Hj Hw HL Hsz Hleg.
+  - destruct gs as [|g gs']; [|discriminate Hlen].
+    exists [], (mkParser (aligned_bufsize B) L Header), u. split; [reflexivity|].
+    split; [reflexivity|]. split; [constructor|]. split; [intros H; contradiction|]. split; reflexivity.
+  - destruct gs as [|g gs']; [discriminate Hlen|]. cbn [length] in Hlen.
+    inversion Hcs as [|c_ cs_ Hc Hcs']; subst c_ cs_.
+    cbn [flat_map] in Hw. rewrite <- app_assoc in Hw.
+    set (t := flat_map creq_wire cs' ++ trailing) in *.
+    assert (Ht : bytes_ok t).
+    { apply bytes_ok_app. split; [exact (creqs_wire_ok (aligned_bufsize B) cs' Hcs')|exact Htr]. }
+    rewrite chain_legal_cons in Hleg. destruct Hleg as [Hne Hleg].
+    destruct (chain_stage B junk c t L u (g_sched g) HB Hc Hj Ht Hw HL Hsz Hne)
+      as (p1 & u1 & o & sp0 & R & Hok & Hst & Hcap & Hheld & EI & Hsreq).
+    rewrite chain_run_cons. rewrite R in *. rewrite EI in *.
+    set (fed := xfed (g_ops g)) in *.
+    destruct Hleg as (Hxl & Hnp & Hfed & Hleg).
+    destruct (xlegal_xrun (g_ops g) sp0 Hxl) as (pf & ds & EX). rewrite EX in *.
+    destruct Hleg as (Hbd & Hout & Hleg).
+    pose proof Hc as (_ & _ & _ & _ & _ & Hrest & Hcl).
+    assert (Hu1 : u1 = fed ++ drop (len fed) u1).
+    { rewrite <- Hfed at 1. symmetry. apply take_drop. }
+    destruct (HP p1 (expected norm c) sp0 (c_rest c) t (g_ops g) pf ds (drop (len fed) u1) Hok Hst EI
+                (jrest_rcd_ok _ _ Hrest) Hcl
+                ltac:(rewrite Hsreq in Hnp; exact Hnp)
+                ltac:(fold fed; rewrite <- Hu1; exact Hheld) Hxl EX)
+      as (Hinv & Hsr & Hbl & Hdel & Hbnd).
+    destruct (Hbnd Hbd) as (dn & todo & Hsplit & Hraw).
+    destruct (into_request_parser_ok pf (proj1 Hinv) Hbd Hout) as (p2 & EC & Hh & Hc2 & Hs2).
+    change (a_raw (abs pf)) with (raw_bytes pf) in Hh. change (a_B (abs pf)) with (len (buffer pf)) in Hc2.
+    rewrite EC in *.
+    assert (Ep2 : p2 = mkParser (aligned_bufsize B) (raw_bytes pf) Header).
+    { destruct p2 as [c2 h2 s2]. cbn [cap held st] in *. subst. rewrite Hbl, Hcap. reflexivity. }
+    rewrite Ep2 in *. clear Ep2 Hh Hc2 Hs2.
+    assert (Hjt : Forall (jrest (aligned_bufsize B)) todo).
+    { rewrite Hsplit in Hrest. apply Forall_app in Hrest. apply Hrest. }
+    assert (HL2 : len (raw_bytes pf) <= (aligned_bufsize B)).
+    { destruct Hinv as [_ (Hao & _)]. unfold a_ok in Hao. cbn [abs a_parsed a_raw a_space a_B] in Hao.
+      rewrite Hbl, Hcap in Hao. lia. }
+    assert (Hsz2 : len (raw_bytes pf ++ drop (len fed) u1) < SIZE_LIMIT).
+    { rewrite Hraw. apply (f_equal len) in Hw. rewrite Hw in Hsz. unfold creq_wire in Hsz.
+      rewrite Hsplit, enc_rcds_app in Hsz. rewrite !len_app in *. lia. }
+    destruct (IH gs' todo (raw_bytes pf) (drop (len fed) u1) Hcs' ltac:(lia) Hjt Hraw HL2 Hsz2 Hleg)
+      as (res & pe & ue & ER & Hm & Hf2 & Hlast & Hste & Hcape).
+    rewrite Hfed. assert (Eb : beq fed fed = true) by (apply beq_eq; reflexivity). rewrite Eb, ER.
+    exists ((sreq sp0, ds) :: res), pe, ue. split; [reflexivity|].
+    split. { cbn [map fst]. rewrite Hsreq, Hm. reflexivity. }
+    split. { constructor; [|exact Hf2]. cbn [snd]. exact Hdel. }
+    split; [|split; [exact Hste|exact Hcape]].
+    intros _. destruct cs' as [|c' cs''].
+    + cbn [last]. exists dn, todo. split; [exact Hsplit|].
+      destruct gs' as [|? ?]; [|discriminate Hlen]. cbn [chain_run] in ER. injection ER as _ <- <-.
+      cbn [held]. rewrite Hraw. reflexivity.
+    + change (last (c :: c' :: cs'') creq_dummy) with (last (c' :: cs'') creq_dummy).
+      apply Hlast. discriminate.
+Qed.
+
+Theorem chain_of_phase_proof : stream_phase_stmt maxc -> chain_stmt norm maxc.
+Proof.
+  intros HP B cs gs trailing HB Hcs Hlen Htr Hsz Hleg.
+  destruct (chain_gen HP B trailing HB Htr cs gs [] [] (flat_map creq_wire cs ++ trailing) Hcs Hlen
+              ltac:(constructor) ltac:(reflexivity) ltac:(rewrite len_nil; lia) Hsz Hleg)
+    as (res & pe & ue & ER & Hm & Hf & Hlast & Hst & Hcap).
+  exists res, pe, ue. split; [exact ER|]. split; [exact Hm|]. split; [exact Hf|].
+  split; [exact Hlast|]. split; [exact Hst|exact Hcap].
+Qed.
+
+Theorem chain_separately_proof : chain_separately_stmt norm maxc.
+Proof.
+  intros B c sched HB Hc Hsz.
+  pose proof Hc as (Hpre & Hpo & Hnv & Hpf & Hfits & Hrest & _).
+  assert (Hbt : bytes_ok (enc_rcds (c_rest c))).
+  { apply bytes_ok_enc_rcds. apply (jrest_rcd_ok _ _ Hrest). }
+  destruct (F_preamble_exact norm maxc B (c_pre c) (c_pairs c) (enc_rcds (c_rest c)) sched HB
+              Hpre Hpo Hnv Hpf Hfits Hbt Hsz) as (p & u & R & Hst & _).
+  exists p, u, (preamble_replies maxc (c_pre c)). split; [exact R|exact Hst].
+Qed.
+
 End CP.
+
+Theorem chain_of_phase : forall norm maxc, stream_phase_stmt maxc -> chain_stmt norm maxc.
+Proof. exact chain_of_phase_proof. Qed.
+
+Theorem chain_separately : forall norm maxc, chain_separately_stmt norm maxc.
+Proof. exact chain_separately_proof. Qed.
+
+Print Assumptions chain_of_phase.
+Print Assumptions chain_separately.
